@@ -36,20 +36,20 @@ var explainMore = map[string]string{
 	"C18": " Also decided (seed round 11): NIL-LOC. Also decided (seed round 13): TS-STR (the formatting half of the round trip: Write formats with RFC3339Nano on every path).",
 	"C17": " Also decided: UV-FOLD (the varint decoder folded on buffers of 1 to 11 named bytes is exactly unsigned LEB128 with the 64-bit overflow rule); VAL-FOLD. Also decided (seed round 14): Skip accepts exactly what Read accepts for every codec (WA-RS); CD-NUM.",
 	"C07": " Also decided (seed round 11): OD-ACCEPT. The reader clauses (OD-SYNC, OD-LEN, OD-FLOW, OD-LOOP, ER-PASS, NIL-IFACE, CT-AGREE's reader side) are decided on the traces ReadFile folds into — every combination of branch outcomes over the first two turns of each loop — and by reading ReadFile's source when the fold does not go through (DESIGN 11.9). Also decided (seed round 13): CP-NODICT; OD-CRC by folding the snappy decompressor.",
-	"C06": " Also decided (seed round 11): NIL-LOC; UV-FOLD (no path of the varint decoder over buffers of up to 11 bytes panics). Also decided (seed round 12): NIL-NEW (the result of a codec's New is read through only after a nil test; reported D25, fixed). Also decided (seed round 13): ER-USE. Also decided (seed round 14): no record is decoded without a bank in the read buffer and the reader's steps come in protocol order (OD-BANK, OD-DELIVER on the traces).",
+	"C06": " Also decided (seed round 11): NIL-LOC; UV-FOLD (no path of the varint decoder over buffers of up to 11 bytes panics). Also decided (seed round 12): NIL-NEW (the result of a codec's New is read through only after a nil test; reported D25, fixed). Also decided (seed round 13): ER-USE. Also decided (seed round 14): no record is decoded without a bank in the read buffer and the reader's steps come in protocol order (OD-BANK, OD-DELIVER on the traces). Also decided (seed round 15): LK-PAIR (no lock is left held on any path: the library cannot be made to stop answering).",
 	"C04": " Also decided (seed round 11): SEL-FOLD. Also decided (seed round 13): SK-FAIL follows numbers handed to buffer helpers back to what the callers pass.",
-	"C12": " Also decided (seed round 10): no package-level lock is or may be held across a call that takes it again or across unseen code (LK-REENT); atomics and sync.Map are shared state (LK-GLOBAL); CD-PURE. Also decided (seed round 14): no view of a read buffer reaches shared state (AL-BUF).",
-	"C01": " Also decided (seed round 9): the address of every item the array codec writes depends on every loop the write sits in (WA-IDX). Also decided (seed round 11): FL-TOTAL; VAL-FOLD. Also decided (seed round 12): SG-REPEAT. The container-reader clauses (OD-CLEAR, OD-LEN, OD-FLOW) are decided on the traces ReadFile folds into (DESIGN 11.9) when the fold goes through. Also decided (seed round 13): SK-FAIL (reading back refuses nothing on a presumption about item widths). Also decided (seed round 14): SG-COMP.",
+	"C12": " Also decided (seed round 10): no package-level lock is or may be held across a call that takes it again or across unseen code (LK-REENT); atomics and sync.Map are shared state (LK-GLOBAL); CD-PURE. Also decided (seed round 14): no view of a read buffer reaches shared state (AL-BUF). Also decided (seed round 15): LK-PAIR; no finalizer or cleanup recycles a bank (AL-FINAL).",
+	"C01": " Also decided (seed round 9): the address of every item the array codec writes depends on every loop the write sits in (WA-IDX). Also decided (seed round 11): FL-TOTAL; VAL-FOLD. Also decided (seed round 12): SG-REPEAT. The container-reader clauses (OD-CLEAR, OD-LEN, OD-FLOW) are decided on the traces ReadFile folds into (DESIGN 11.9) when the fold goes through. Also decided (seed round 13): SK-FAIL (reading back refuses nothing on a presumption about item widths). Also decided (seed round 14): SG-COMP. Also decided (seed round 15): STR-TOTAL.",
 	"C02": " Also decided (seed round 9): WA-IDX. Also decided (seed round 10): BT-WIDTH, signedness included. Also decided (seed round 11): WA-ZERO; VAL-FOLD. Also decided (seed round 13): TS-MULT/TS-UNIT and TS-STR for time fields; CRC-BE by folding the snappy compressor. Also decided (seed round 14): every codec name NewFileWriter accepts is one of the specification's (CT-AGREE, writer clause).",
-	"C03": " Also decided (seed round 9): the bank's slot discipline, including that no pointer into the growable arena table is kept (AL-BUMP, AL-CLR, AL-CLOSE, AL-STALE). Also decided (seed round 10): codec methods reach no mutable package state (CD-PURE). Also decided (seed round 11): OD-ACCEPT; SEL-FOLD; FL-TOTAL. Also decided (seed round 12): BT-REC, SG-NAMES, REC-LIST, BT-SENTINEL (a record field is stored at the offset of the target's own field of that name). CT-AGREE (reader side), OD-LOOP, OD-CLEAR by the trace fold of ReadFile (DESIGN 11.9). Also decided (seed round 14): element stores only through the item codec, backing array of the item type (ARR-BOUND, BT-ARR); a nested record held through a pointer is a present field (record fold, sixth shape).",
+	"C03": " Also decided (seed round 9): the bank's slot discipline, including that no pointer into the growable arena table is kept (AL-BUMP, AL-CLR, AL-CLOSE, AL-STALE). Also decided (seed round 10): codec methods reach no mutable package state (CD-PURE). Also decided (seed round 11): OD-ACCEPT; SEL-FOLD; FL-TOTAL. Also decided (seed round 12): BT-REC, SG-NAMES, REC-LIST, BT-SENTINEL (a record field is stored at the offset of the target's own field of that name). CT-AGREE (reader side), OD-LOOP, OD-CLEAR by the trace fold of ReadFile (DESIGN 11.9). Also decided (seed round 14): element stores only through the item codec, backing array of the item type (ARR-BOUND, BT-ARR); a nested record held through a pointer is a present field (record fold, sixth shape). Also decided (seed round 15): STR-TOTAL, UN-TOTAL.",
 	"C05": " Also decided (seed round 9): the registries are read by exact-key lookup only, so a registered builder is never handed another type (REG-EXACT).",
-	"C09": " Also decided (seed round 9): the threshold is the constructor's block-size parameter, stored unchanged (ENC-SIZE). Also decided (seed round 11): nothing but the size test gates the flush (ENC-2); OD-BLOCK by folding WriteBlock. Also decided (seed round 12): the compressor whose output becomes the payload belongs to this writer alone (LK-OWN) and nothing on the writing path uses package-level state (ENC-PURE). Also decided (seed round 13): CRC-BE.",
+	"C09": " Also decided (seed round 9): the threshold is the constructor's block-size parameter, stored unchanged (ENC-SIZE). Also decided (seed round 11): nothing but the size test gates the flush (ENC-2); OD-BLOCK by folding WriteBlock. Also decided (seed round 12): the compressor whose output becomes the payload belongs to this writer alone (LK-OWN) and nothing on the writing path uses package-level state (ENC-PURE). Also decided (seed round 13): CRC-BE. Also decided (seed round 15): ENC-BUF0.",
 	"C11": " Also decided (seed round 9): a bank handed out is no longer the reader's and only Close pools a bank (OD-BANK, AL-OWNER). Also decided (seed round 10): AL-STALE through helper results. OD-BANK and GC-TARGET by the trace fold of ReadFile (DESIGN 11.9). Also decided (seed round 14): AL-STR.",
-	"C13": " Also decided (seed round 9): WA-WR and WA-SPEC-W for all 27 codec types, WA-IDX, and floor division of time-derived counts (TS-FLOOR). Also decided (seed round 10): CD-PURE. Also decided (seed round 11): SG-NAMES, WA-ZERO, SEL-FOLD, VAL-FOLD. Also decided (seed round 13): FL-TOTAL. Also decided (seed round 14): CD-NUM.",
+	"C13": " Also decided (seed round 9): WA-WR and WA-SPEC-W for all 27 codec types, WA-IDX, and floor division of time-derived counts (TS-FLOOR). Also decided (seed round 10): CD-PURE. Also decided (seed round 11): SG-NAMES, WA-ZERO, SEL-FOLD, VAL-FOLD. Also decided (seed round 13): FL-TOTAL. Also decided (seed round 14): CD-NUM. Also decided (seed round 15): what the string time codec writes the parser accepts (the parser fold of C18: PT-ACCEPT and its companions).",
 	"C14": " Also decided (seed round 9): the JSON tags carry no option that changes name matching (JS-TAG-OPT). Also decided (seed round 10): the parser's own refusals are on the token kind only (JS-ACCEPT). Also decided (seed round 12): JS-PURE (nothing the parse entry points or the marshal/unmarshal pair reach uses package-level state).",
-	"C15": " Also decided (seed round 9): REG-EXACT for the schema registry. Also decided (seed round 11): REG-OVERWRITE. Also decided (seed round 12): SG-REPEAT. Also decided (seed round 14): SG-COMP.",
+	"C15": " Also decided (seed round 9): REG-EXACT for the schema registry. Also decided (seed round 11): REG-OVERWRITE. Also decided (seed round 12): SG-REPEAT. Also decided (seed round 14): SG-COMP. Also decided (seed round 15): SG-TYPEONLY.",
 	"C19": " Also decided (seed round 9): Read refuses a decoded integer only on a comparison with MaxInt64/mult or MinInt64/mult, anything else being undecided (TS-TOTAL); quotients of time-derived counts are floor-corrected (TS-FLOOR). Also decided (seed round 10): the time codecs reach no package state besides the locked zone cache (CD-PURE). Also decided: VAL-FOLD for DateCodec.Read.",
-	"C20": " Also decided (seed round 9): REG-EXACT; RegisterCodecs registers unconditionally on every call (REG-ALWAYS). Also decided (seed round 10): OM-ZERO. Also decided (seed round 13): REG-ARG. Also decided (seed round 14): DST-FRESH (a registered type as a map value is decoded into storage of its own).",
+	"C20": " Also decided (seed round 9): REG-EXACT; RegisterCodecs registers unconditionally on every call (REG-ALWAYS). Also decided (seed round 10): OM-ZERO. Also decided (seed round 13): REG-ARG. Also decided (seed round 14): DST-FRESH (a registered type as a map value is decoded into storage of its own). Also decided (seed round 15): REG-ENTRY.",
 }
 
 func register(id, explanation string, run func(c *Ctx)) {
